@@ -8,6 +8,7 @@ unsat = holds within the unrolling bound; sat = a concrete MIR path (blocks, sou
 Every anchor must itself be reachable (vacuity guard); an anchor that cannot be found makes the
 obligation inconclusive, never a pass and never a violation.
 """
+import os
 import re
 import time
 
@@ -27,6 +28,7 @@ class Q:
         self.cross_agree = 0
         self.cross_disagreements = []
         self.tmpdir = None
+        self.slow_log = None
 
     def check(self, *conds, domain=None):
         self.queries += 1
@@ -41,7 +43,12 @@ class Q:
         if self.cross_check and r in (z3.sat, z3.unsat):
             self._cross(r)
         self.solver.pop()
-        self.solver_s += time.time() - t0
+        dt = time.time() - t0
+        self.solver_s += dt
+        if dt > 10 and self.slow_log is not None:
+            import traceback
+            fr = [f for f in traceback.extract_stack()[:-1] if "/specs/" in f.filename or f.filename.endswith("oblig.py")]
+            self.slow_log(f"[mirsym] slow query {dt:.0f}s -> {r} at " + " < ".join(f"{os.path.basename(f.filename)}:{f.lineno}" for f in fr[-3:]))
         return r, model
 
     def _cross(self, r):
@@ -121,6 +128,48 @@ def violated(res, E, q, ev, model, what):
                    "path": E.path_of_model(model), "model": model_summary(E, model)}
 
 
+def divrem_lemma(conds):
+    """Replace every unsigned division / remainder by a constant c > 0 in `conds` by fresh
+    quotient / remainder symbols constrained by a = q*c + r, r < c (computed without wrap-around
+    in 2x width). q and r are uniquely determined, so the rewritten query is equisatisfiable;
+    bit-blasting the product with a constant is far cheaper than the divider circuit."""
+    cache, extra = {}, []
+
+    def pair(a, c):
+        key = (a.get_id(), c.as_long())
+        if key not in cache:
+            n = a.size()
+            k = len(cache)
+            qv, rv = z3.BitVec(f"divq!{k}", n), z3.BitVec(f"divr!{k}", n)
+            wide = lambda t: z3.ZeroExt(n, t)
+            extra.append(wide(a) == wide(qv) * wide(c) + wide(rv))
+            extra.append(z3.ULT(rv, c))
+            cache[key] = (qv, rv, a)
+        return cache[key][:2]
+
+    memo = {}
+
+    def walk(t):
+        tid = t.get_id()
+        if tid in memo:
+            return memo[tid][1]
+        kids = [walk(ch) for ch in t.children()]
+        out = t
+        if z3.is_app(t) and kids:
+            kind = t.decl().kind()
+            if kind in (z3.Z3_OP_BUDIV, z3.Z3_OP_BUDIV_I, z3.Z3_OP_BUREM, z3.Z3_OP_BUREM_I) and \
+                    z3.is_bv_value(kids[1]) and kids[1].as_long() > 0:
+                qv, rv = pair(kids[0], kids[1])
+                out = qv if kind in (z3.Z3_OP_BUDIV, z3.Z3_OP_BUDIV_I) else rv
+            elif any(k.get_id() != c.get_id() for k, c in zip(kids, t.children())):
+                out = t.decl()(*kids)
+        memo[tid] = (t, out)
+        return out
+
+    new = [walk(c) for c in conds]
+    return new + extra
+
+
 def need_anchor(res, evs, what):
     if not evs:
         res.status = "inconclusive"
@@ -192,3 +241,127 @@ def never(res, E, q, evs, cond, what):
         if r != z3.unsat:
             res.status = "inconclusive"
     res.nontrivial = res.nontrivial or bool(evs)
+
+
+class IntEncodingError(Exception):
+    pass
+
+
+def bv_to_int(conds):
+    """Integer encoding of an unsigned bit-vector query that keeps the mod-2^k semantics: every
+    bit-vector term becomes a mathematical integer in [0, 2^k) (variables with range constraints,
+    `+`/`-`/`*` followed by mod 2^k, division / remainder / shifts by constants as div / mod).
+    Multiplication, division and remainder by constants are linear, so queries that stall a
+    bit-blaster are decided by arithmetic. Signed operators and symbolic * symbolic are rejected
+    (IntEncodingError), never approximated."""
+    memo, ranges = {}, []
+    I = z3.IntVal
+
+    def tr(t):
+        tid = t.get_id()
+        if tid in memo:
+            return memo[tid][1]
+        k = t.decl().kind() if z3.is_app(t) else None
+        ch = t.children()
+        out = None
+        if z3.is_bv(t):
+            n = t.size()
+            M = I(1 << n)
+            if z3.is_bv_value(t):
+                out = I(t.as_long())
+            elif z3.is_const(t) and k == z3.Z3_OP_UNINTERPRETED:
+                out = z3.Int("int!" + str(t))
+                ranges.append(z3.And(out >= 0, out < M))
+            elif k == z3.Z3_OP_BADD:
+                out = z3.Sum([tr(c) for c in ch]) % M
+            elif k == z3.Z3_OP_BSUB:
+                out = (tr(ch[0]) - tr(ch[1])) % M
+            elif k == z3.Z3_OP_BMUL:
+                consts = [c for c in ch if z3.is_bv_value(c)]
+                others = [c for c in ch if not z3.is_bv_value(c)]
+                if len(others) > 1:
+                    raise IntEncodingError("symbolic * symbolic")
+                prod = 1
+                for c in consts:
+                    prod *= c.as_long()
+                out = (I(prod) * tr(others[0])) % M if others else I(prod % (1 << n))
+            elif k in (z3.Z3_OP_BUDIV, z3.Z3_OP_BUDIV_I, z3.Z3_OP_BUREM, z3.Z3_OP_BUREM_I):
+                if not z3.is_bv_value(ch[1]) or ch[1].as_long() == 0:
+                    raise IntEncodingError("division by a non-constant")
+                c = I(ch[1].as_long())
+                out = tr(ch[0]) / c if k in (z3.Z3_OP_BUDIV, z3.Z3_OP_BUDIV_I) else tr(ch[0]) % c
+            elif k == z3.Z3_OP_ZERO_EXT:
+                out = tr(ch[0])
+            elif k == z3.Z3_OP_CONCAT:
+                acc = I(0)
+                for c in ch:
+                    acc = acc * I(1 << c.size()) + tr(c)
+                out = acc
+            elif k == z3.Z3_OP_EXTRACT:
+                hi, lo = t.params()
+                out = (tr(ch[0]) / I(1 << lo)) % I(1 << (hi - lo + 1))
+            elif k == z3.Z3_OP_ITE:
+                out = z3.If(tr(ch[0]), tr(ch[1]), tr(ch[2]))
+            elif k == z3.Z3_OP_BSHL and z3.is_bv_value(ch[1]):
+                out = (tr(ch[0]) * I(1 << min(ch[1].as_long(), n))) % M
+            elif k == z3.Z3_OP_BLSHR and z3.is_bv_value(ch[1]):
+                out = tr(ch[0]) / I(1 << min(ch[1].as_long(), n))
+            else:
+                raise IntEncodingError(f"bit-vector operator {t.decl().name()}")
+        elif z3.is_bool(t):
+            if z3.is_true(t) or z3.is_false(t):
+                out = t
+            elif z3.is_const(t) and k == z3.Z3_OP_UNINTERPRETED:
+                out = t
+            elif k in (z3.Z3_OP_AND, z3.Z3_OP_OR, z3.Z3_OP_NOT, z3.Z3_OP_IMPLIES, z3.Z3_OP_XOR):
+                out = t.decl()(*[tr(c) for c in ch])
+            elif k == z3.Z3_OP_ITE:
+                out = z3.If(tr(ch[0]), tr(ch[1]), tr(ch[2]))
+            elif k in (z3.Z3_OP_EQ, z3.Z3_OP_DISTINCT):
+                a, b = tr(ch[0]), tr(ch[1])
+                out = (a == b) if k == z3.Z3_OP_EQ else (a != b)
+            elif k in (z3.Z3_OP_ULT, z3.Z3_OP_ULEQ, z3.Z3_OP_UGT, z3.Z3_OP_UGEQ):
+                a, b = tr(ch[0]), tr(ch[1])
+                out = {z3.Z3_OP_ULT: a < b, z3.Z3_OP_ULEQ: a <= b, z3.Z3_OP_UGT: a > b, z3.Z3_OP_UGEQ: a >= b}[k]
+            else:
+                raise IntEncodingError(f"boolean operator {t.decl().name()}")
+        else:
+            raise IntEncodingError(f"sort {t.sort()}")
+        memo[tid] = (t, out)      # keeps t alive: ids of freed terms are reused
+        return out
+
+    out = [tr(z3.simplify(c)) for c in conds]
+    return out + ranges
+
+
+def int_check(q, *conds, timeout_ms=120000):
+    """decide an unsigned bit-vector query through its integer encoding; the model is mapped
+    back to the bit-vector variables (as a dict name -> int)"""
+    t0 = time.time()
+    enc = bv_to_int(list(conds))
+    s = z3.Solver()
+    s.set("timeout", timeout_ms)
+    s.add(*enc)
+    r = s.check()
+    q.queries += 1
+    q.solver_s += time.time() - t0
+    model = None
+    if r == z3.sat:
+        m = s.model()
+        model = {str(d)[4:]: m[d].as_long() for d in m.decls() if str(d).startswith("int!")}
+    return r, model
+
+
+def eval_bv(term, values):
+    """value of a bit-vector term under {variable name: int} (missing variables are 0)"""
+    seen, subs, work = {}, [], [term]
+    while work:
+        x = work.pop()
+        if x.get_id() in seen:
+            continue
+        seen[x.get_id()] = x
+        if z3.is_const(x) and x.decl().kind() == z3.Z3_OP_UNINTERPRETED and z3.is_bv(x):
+            subs.append((x, z3.BitVecVal(values.get(str(x), 0), x.size())))
+        work.extend(x.children())
+    v = z3.simplify(z3.substitute(term, *subs)) if subs else z3.simplify(term)
+    return v.as_long() if z3.is_bv_value(v) else None
